@@ -68,7 +68,8 @@ def stages(tier, rng, only=None):
            Stage("ilp_rows", "Trace_ILP", ilprun.run_ilp, lambda: _ilp_cases(tier, rng), lambda r: r["n"] >= 3,
                  ilprun.init, post=ilprun.flatten, chunk=200)]
     ncyc = 120 if tier == "quick" else 1500
-    cyc_sch = SCHEMES + [([0, 10, 5, 0, 10, 5], [4, 4, 0, 4, 4, 0], 10), ([0, 4, 2, 0, 0, 0], [1, 1, 0, 0, 0, 0], 4)]
+    cyc_sch = SCHEMES + [([0, 10, 5, 0, 10, 5], [4, 4, 0, 4, 4, 0], 10), ([0, 4, 2, 0, 0, 0], [1, 1, 0, 0, 0, 0], 4)] \
+        + ac.TINY
     out.append(ac.stage("cycles", PID, lambda: _cases(
         [ac.cyclic_dataset(rng, 3, 5, incomplete=k % 3 == 2) for k in range(ncyc)], rng, schemes=cyc_sch), _nt))
     out.append(ac.stage("reuse_after_mutation", PID, lambda: ac.reuse_mutate_cases(
